@@ -17,13 +17,31 @@ Local Open Scope Z_scope.
 Local Open Scope list_scope.
 
 Definition seeds : list Z := {seeds}.
-(* per case: (guard flags, #states on which C is defined, first failing (seed, kind)) ; None = real body does not denote *)
-Definition probe (c : cstmts * body) : option (N * nat * option (Z * N)) :=
+(* locals the source declares, with the sort their C type has: a declared local that is read before
+   any assignment is indeterminate in C; it is given its declared sort so that the sort check judges
+   the operators, not the missing initialisation *)
+Fixpoint decl_sorts_s (s : cstmt) : lenv :=
+  match s with
+  | SDecl t x _ => match resolve_ty_c t with Some ty => [(x, SBv (snd ty))] | None => [] end
+  | SIf _ t None => decl_sorts_s t
+  | SIf _ t (Some f) => decl_sorts_s t ++ decl_sorts_s f
+  | SFor i _ _ b => decl_sorts_s i ++ decl_sorts_s b
+  | SBlock l => decl_sorts_ss l
+  | _ => []
+  end
+with decl_sorts_ss (l : cstmts) : lenv := match l with SNil => [] | SCons s t => decl_sorts_s s ++ decl_sorts_ss t end.
+Definition special_sorts : lenv := [("EA", SBv 32); ("i", SBv 32); ("j", SBv 32); ("k", SBv 32)]%N.
+
+(* per case: (guard flags, #states on which C is defined, first failing (seed, kind), well-sorted, wf_body, linear);
+   None = real body does not denote *)
+Definition probe (c : cstmts * body) : option (N * nat * option (Z * N) * bool * bool * bool) :=
   let '(p, b) := c in
   match denote b with
   | None => None
   | Some e => Some (guard_flags p, count_defined xi csub_table ilsub_table {fuel} p e seeds,
-                    first_bad xi csub_table ilsub_table {fuel} p e seeds)
+                    first_bad xi csub_table ilsub_table {fuel} p e seeds,
+                    match wf_effect (rw_of (regs_ss xi p)) (decl_sorts_ss p ++ special_sorts) e with Some _ => true | None => false end,
+                    wf_body b, linear b)
   end.
 """
 
@@ -83,9 +101,8 @@ def parse_option_list(v: str):
         if p == "None":
             out.append(None)
             continue
+        bools = [x == "true" for x in re.findall(r"\b(true|false)\b", p)]
         nums = [int(x) for x in re.findall(r"-?\d+", p)]
-        if "Some (" in p[5:]:
-            out.append((nums[0], nums[1], (nums[2], nums[3])))
-        else:
-            out.append((nums[0], nums[1], None))
+        bad = (nums[2], nums[3]) if "Some (" in p[5:] else None
+        out.append({"flags": nums[0], "defined": nums[1], "bad": bad, "sorted": bools[-3], "wf": bools[-2], "linear": bools[-1]})
     return out
